@@ -108,8 +108,12 @@ def r14_3(ctx):
         if callee_name(t).endswith("VueJsxTransformVisitor::<C>::new"):
             srcs = fl.op_sources(t["args"][0])
             names = {x[1] for x in srcs if x[0] == "call"}
-            ok = any(n.endswith("Option::<T>::unwrap_or_default") for n in names)
-            r.ob("options argument = parsed-config.unwrap_or_default()", ok, C.mloc(b, t), "sources: %s" % sorted(n.split("::")[-1] for n in names))
+            # either `parsed.unwrap_or_default()`, or the two arms of a match: Options::default() / the strictly parsed value
+            dflt = any(n.endswith("Option::<T>::unwrap_or_default") for n in names) or \
+                (any(n.endswith("::default") and "Default" in n for n in names) and any(re.search(r"Result::<T, E>::(expect|unwrap)$", n) for n in names))
+            odd = sorted(n for n in names if not re.search(r"(Option::<T>::(unwrap_or_default|map)|Result::<T, E>::(expect|unwrap)|::default|from_str|get_transform_plugin_config|::clone|::into|::from|::as_str|::as_ref|::deref)$", n))
+            ok = dflt and not odd
+            r.ob("options argument = parsed-config.unwrap_or_default()", ok, C.mloc(b, t), "sources: %s" % sorted(n.split("::")[-1] for n in names) + ("; unexpected: %s" % odd if odd else ""))
             # no field store into the options local
             p = place_of(t["args"][0])
             tampered = False
@@ -119,8 +123,8 @@ def r14_3(ctx):
                         if s["k"] == "assign" and s["lhs"]["l"] == p["l"] and s["lhs"].get("p"):
                             tampered = True
             r.ob("options are not modified between parsing and construction", not tampered, C.mloc(b, t), "no field store" if not tampered else "a field of the parsed options is overwritten")
-    # the closure parsing JSON: from_str::<Options> then expect (no unwrap_or*, ok(), or_else)
-    cls = ctx.facts.closures_of.get((b["crate"], b["path"]), [])
+    # where the JSON is parsed (the entry or one of its closures): from_str::<Options> then expect (no unwrap_or*, ok(), or_else)
+    cls = [b] + ctx.facts.closures_of.get((b["crate"], b["path"]), [])
     parsed = False
     for cb in cls:
         names = [callee_name(t) for i, t in calls(cb)]
@@ -146,16 +150,61 @@ def r14_4(ctx):
         return r
     for b in vs:
         r.saw(b["path"])
-        names = [callee_name(t) for i, t in calls(b)]
-        has_new = any(n.endswith("Regex::new") for n in names)
-        bad = [n for n in names if re.search(r"Result::<T, E>::(unwrap_or|unwrap_or_default|unwrap_or_else|ok|or|or_else|unwrap|expect)$", n)]
-        fl = flow_of(ctx, b)
-        # the returned value derives from Regex::new through map / map_err only
-        srcs = fl.sources(0)
-        via = {x[1].split("::")[-1] for x in srcs if x[0] == "call"}
-        ok = has_new and not bad and via <= {"map", "map_err", "new", "and_then"}
-        r.ob("%s propagates the regex error" % b["path"].split("::")[-1], ok, C.mloc(b, b), "return value comes from Regex::new via %s" % sorted(via) if ok else "Regex::new missing or its error replaced (%s)" % (bad or sorted(via)))
+        ok, why = _propagates_regex_error(ctx, b, set())
+        r.ob("%s propagates the regex error" % b["path"].split("::")[-1], ok, C.mloc(b, b), why)
     return r
+
+
+def _propagates_regex_error(ctx, b, seen):
+    """the returned Result derives from the regex crate's `Regex::new` through map / map_err / and_then and through local functions
+    of which the same holds (a visitor method delegating to its sibling, the crate's own `Regex::new` wrapper); no fallback anywhere"""
+    if b["path"] in seen:
+        return False, "recursive delegation"
+    seen = seen | {b["path"]}
+    names = [callee_name(t) for i, t in calls(b)]
+    bad = [n for n in names if re.search(r"Result::<T, E>::(unwrap_or|unwrap_or_default|unwrap_or_else|ok|or|or_else|unwrap|expect)$", n)]
+    if bad:
+        return False, "the regex error is replaced / swallowed (%s)" % bad
+    fl = flow_of(ctx, b)
+    via = set()
+    todo = [0]
+    done = set()
+    while todo:
+        l = todo.pop()
+        if l in done:
+            continue
+        done.add(l)
+        for kind, bb, d in fl.defs.get(l, []):
+            if kind == "call":
+                n = callee_name(d)
+                via.add(n)
+                if n.split("::")[-1] in ("map", "map_err", "and_then") and d["args"] and place_of(d["args"][0]):
+                    todo.append(place_of(d["args"][0])["l"])
+            elif d["rv"].get("rk") == "use" and place_of(d["rv"]["op"]):
+                todo.append(place_of(d["rv"]["op"])["l"])
+            elif d["rv"].get("rk") not in ("use",):
+                via.add("<%s>" % d["rv"].get("rk"))
+    base = False
+    chain = []
+    for n in sorted(via):
+        last = n.split("::")[-1]
+        local = ctx.facts.mir_by_path.get((b["crate"], n))
+        if local is not None:
+            ok, why = _propagates_regex_error(ctx, local, seen)
+            if not ok:
+                return False, "delegates to %s: %s" % (last, why)
+            base = True
+            chain.append(last + "()")
+        elif n.startswith("regex::") and last == "new":
+            base = True
+            chain.append("regex::Regex::new")
+        elif last in ("map", "map_err", "and_then", "deref", "as_str", "as_ref", "borrow"):
+            chain.append(last)
+        else:
+            return False, "return value passes through %s" % n
+    if not base:
+        return False, "Regex::new missing (%s)" % sorted(x.split("::")[-1] for x in via)
+    return True, "return value comes from Regex::new via %s" % chain
 
 
 PURE = re.compile(r"(core::cmp::PartialEq|::eq$|::ne$|::deref$|::as_ref$|::is_empty$|::len$|::iter$|::clone$|::is_some$|::is_none$|::into$|::from$|::as_slice$|::eq_ignore_ascii_case$|util::is_on$"
